@@ -115,8 +115,8 @@ PROPS = {
             {"pkg": "bscript", "name": "VH_C13_Parts", "quick": {"params": {"P": 2, "BIG": 1}}, "thorough": {"params": {"P": 3, "BIG": 1}}},
             {"pkg": "bscript", "name": "VH_C13_DecodeParts", "quick": {"params": {"L": 4}}, "thorough": {"params": {"L": 7}}},
             {"pkg": "bscript", "name": "VH_C13_HexJSON", "quick": {"params": {"L": 3}}, "thorough": {"params": {"L": 6}}},
-            {"pkg": "bscript", "name": "VH_C13_ASM", "quick": {"params": {"E": 2, "PL": 3}}, "thorough": {"params": {"E": 3, "PL": 5}}},
-            {"pkg": "interpreter", "name": "VH_C13_ParseUnparse", "quick": {"params": {"L": 2}}, "thorough": {"params": {"L": 3}}},
+            {"pkg": "bscript", "name": "VH_C13_ASM", "quick": {"params": {"E": 2, "PL": 3}}, "thorough": {"params": {"E": 2, "PL": 5}}},
+            {"pkg": "interpreter", "name": "VH_C13_ParseUnparse", "quick": {"params": {"L": 2}}, "thorough": {"params": {"L": 2}}},
             {"pkg": "interpreter", "name": "VH_C13_ParsePush"},
             {"pkg": "interpreter", "name": "VH_C13_ParseReturn", "quick": {"params": {"T": 4}}, "thorough": {"params": {"T": 8}}},
         ],
